@@ -456,6 +456,36 @@ def primitive_unit(u, res):
                 _ground(res, "species guard %s %s det=%d" % (label, pm, round(np.linalg.det(smat))), ok,
                         "%s:primitive:guard:%s:%s" % (PID, label, pm), why,
                         {"symbols": symbols, "pm": pm, "smat": np.array(smat).tolist()})
+    # ... and so are cells whose atom count is not a multiple of the centring multiplicity: one sublattice carries the full centring, a second
+    # one only k of its m translates (general positions), so the folded cell would hold rint((m+k)/m) atoms "by count" but is no tiling
+    shifts = {"I": [[0, 0, 0], [.5, .5, .5]], "A": [[0, 0, 0], [0, .5, .5]], "C": [[0, 0, 0], [.5, .5, 0]],
+              "F": [[0, 0, 0], [0, .5, .5], [.5, 0, .5], [.5, .5, 0]], "R": [[0, 0, 0], [2. / 3, 1. / 3, 1. / 3], [1. / 3, 2. / 3, 2. / 3]]}
+    for pm, sh in shifts.items():
+        m_ = len(sh)
+        for k_ in range(1, m_):
+            lat = np.array([[4.0, 0, 0], [-2.0, 2.0 * np.sqrt(3), 0], [0, 0, 7.0]]) if pm == "R" else np.diag([5.0, 5.2, 5.4]) if pm in ("A", "C") else np.eye(3) * 5.0
+            pos = [np.array([0.11, 0.07, 0.05]) + np.array(t) for t in sh] + [np.array([0.31, 0.42, 0.23]) + np.array(t) for t in sh[:k_]]
+            for sym2 in ("Cl", "Na"):                          # second sublattice of another / of the same species
+                cell = PhonopyAtoms(cell=lat, symbols=["Na"] * m_ + [sym2] * k_, scaled_positions=np.array(pos) % 1.0)
+                for smat in (np.eye(3, dtype=int), np.diag([2, 1, 1])):
+                    sc = get_supercell(cell, smat)
+                    try:
+                        get_primitive(sc, np.linalg.inv(smat) @ _centring(pm)); built = True
+                    except Exception:
+                        built = False
+                    # the anchored mechanism's own guard: TrimmedCell (a public class, also used outside Primitive) checks the atom count
+                    # of what it extracted and must refuse by itself - Primitive's later mapping guard is a second line, not the first
+                    from phonopy.structure.cells import TrimmedCell
+                    try:
+                        TrimmedCell(np.linalg.inv(smat) @ _centring(pm), sc); tbuilt = True
+                    except Exception:
+                        tbuilt = False
+                    _ground(res, "count guard (TrimmedCell) %s: %d+%d atoms (%s) det=%d" % (pm, m_, k_, sym2, round(np.linalg.det(smat))), not tbuilt,
+                            "%s:primitive:trimguard:%s:%d:%s" % (PID, pm, k_, sym2), "TrimmedCell with centring %s built a %s-atom cell from a fully centred sublattice (%d atoms) plus a partial one (%d atoms): no tiling" % (pm, "wrong", m_, k_),
+                            {"pm": pm, "k": k_, "smat": np.array(smat).tolist()})
+                    _ground(res, "count guard %s: %d+%d atoms (%s) det=%d" % (pm, m_, k_, sym2, round(np.linalg.det(smat))), not built,
+                            "%s:primitive:countguard:%s:%d:%s" % (PID, pm, k_, sym2), "centring %s of a cell with a fully centred sublattice (%d atoms) and a partial one (%d atoms) was built although it is no tiling" % (pm, m_, k_),
+                            {"pm": pm, "k": k_, "smat": np.array(smat).tolist()})
     res.twins.append({"name": "primitive family non-empty", "verdict": "sat"})
     res.samples.append({"unit": res.unit, "family": fam})
     return res
